@@ -248,7 +248,7 @@ class CEmitter:
             ct = self.ctype(t)
             self.lib_used.add(('decl', uf, ct, (ct,)))
             self.helpers[fn] = ('/* libm sqrt replaced by its contract (assumed: correctly rounded): r >= 0, r > 0 for x > 0, monotone bounds */\n'
-                                'static %s %s(%s x) {\n  __CPROVER_assert(x >= 0, "sqrt argument non-negative");\n  %s r = %s(x);\n'
+                                'static %s %s(%s x) {\n' + ('  __CPROVER_assert(x >= 0, "sqrt argument non-negative");\n' if getattr(self, 'domain_asserts', True) else '') + '  %s r = %s(x);\n'
                                 '  __CPROVER_assume(r >= 0 && (x > 0 ? r > 0 : r == 0) && (x >= 1 ? (r >= 1 && r <= x) : (r <= 1 && r >= x)));\n  return r;\n}\n') % (ct, fn, ct, ct, uf)
             return '%s(%s)' % (fn, self.ex(args[0]))
         if name == 'sqrt':
@@ -262,7 +262,7 @@ class CEmitter:
             piup = hexfloat(round_to(_F('3.14159265358979323846264338327950288419716939937510'), t[1]), t[1])
             self.lib_used.add(('decl', uf, ct, (ct,)))
             self.helpers[fn] = ('/* libm acos: domain checked here; range [0, pi rounded to %s] and NaN-freedom on [-1,1] are the assumed libm contract */\n'
-                                'static %s %s(%s x) {\n  __CPROVER_assert(x >= -1 && x <= 1, "acos argument in [-1,1] and not NaN");\n'
+                                'static %s %s(%s x) {\n' + ('  __CPROVER_assert(x >= -1 && x <= 1, "acos argument in [-1,1] and not NaN");\n' if getattr(self, 'domain_asserts', True) else '') +
                                 '  %s r = %s(x);\n  __CPROVER_assume(r >= 0 && r <= %s);\n  return r;\n}\n') % (t[1], ct, fn, ct, ct, uf, piup)
             return '%s(%s)' % (fn, self.ex(args[0]))
         if name == 'abs' and t[0] == 'f':
